@@ -561,12 +561,33 @@ Theorem grid_all_degenerate_combinations : forall xmin xmax ymin ymax zmin zmax 
                     ++ (if Rlt_bool zmax zmin then [AxZ] else []).
 Proof. exact grid_init_R. Qed.
 
-(* resample(new_pixel_size) is Grid(the same six bounds, new_pixel_size) *)
+(* resample(new_pixel_size) is Grid(the same six bounds, new_pixel_size).
+   REPAIR (was: grid_resample g px = grid_init ... px): resample hands the bounds to the constructor as
+   numpy scalars, so a zero pixel size on a non-degenerate axis raises OverflowError (round(inf)) where the
+   constructor called with Python floats raises ZeroDivisionError; the statement now passes the error kind
+   through np_zero_err (ZeroDivisionError -> OverflowError, every other kind unchanged).  The old equation
+   holds exactly when the constructor does not answer ZeroDivisionError: see the two theorems below. *)
 Theorem grid_resample_same_bounds : forall xmin xmax ymin ymax zmin zmax dx dy dz g px,
   axis_okR xmin xmax dx -> axis_okR ymin ymax dy -> axis_okR zmin zmax dz ->
   grid_init NumR xmin xmax ymin ymax zmin zmax (PxSeq [dx; dy; dz]) = inr g ->
-  grid_resample NumR g px = grid_init NumR xmin xmax ymin ymax zmin zmax px.
+  grid_resample NumR g px = match grid_init NumR xmin xmax ymin ymax zmin zmax px with
+                            | inl e => inl (np_zero_err e)
+                            | inr r => inr r
+                            end.
 Proof. exact grid_resample_R. Qed.
+
+Theorem grid_resample_accepted : forall xmin xmax ymin ymax zmin zmax dx dy dz g px r,
+  axis_okR xmin xmax dx -> axis_okR ymin ymax dy -> axis_okR zmin zmax dz ->
+  grid_init NumR xmin xmax ymin ymax zmin zmax (PxSeq [dx; dy; dz]) = inr g ->
+  grid_init NumR xmin xmax ymin ymax zmin zmax px = inr r -> grid_resample NumR g px = inr r.
+Proof. exact grid_resample_ok_R. Qed.
+
+Theorem grid_resample_zero_pixel_overflow : forall xmin xmax ymin ymax zmin zmax dx dy dz g px,
+  axis_okR xmin xmax dx -> axis_okR ymin ymax dy -> axis_okR zmin zmax dz ->
+  grid_init NumR xmin xmax ymin ymax zmin zmax (PxSeq [dx; dy; dz]) = inr g ->
+  grid_init NumR xmin xmax ymin ymax zmin zmax px = inl ZeroDivisionError ->
+  grid_resample NumR g px = inl OverflowError.
+Proof. exact grid_resample_zero_R. Qed.
 
 (* to_oriented_points: the flattened grid and one identity orientation per point (any instance) *)
 Theorem grid_to_oriented_points_is_flat_identity : forall (T : Type) (N : Num T) (g : grid_obj),
@@ -705,13 +726,19 @@ Theorem cs_setters_do_not_check_orthogonality :
             c_convert_to_gcs NumR c (c_convert_from_gcs NumR c (mkNd [] [(0, 1, 0)])) <> mkNd [] [(0, 1, 0)].
 Proof. exact cs_no_orthogonality_check. Qed.
 
-(* convert_from_gcs_pairwise on a point array and an array of origins of ANY shapes: three arrays of
-   shape pshape ++ oshape whose entry at ip ++ io is the coordinate of the converted point P[ip] minus
-   the coordinate of origins[io] (every numeric instance) *)
+(* convert_from_gcs_pairwise on a point array of any shape with at least one dimension and a 1-d array of
+   origins: three arrays of shape pshape ++ oshape whose entry at ip ++ io is the coordinate of the
+   converted point P[ip] minus the coordinate of origins[io] (every numeric instance).
+   REPAIR (was: origins and points of ANY shapes): the library computes
+   x[..., newaxis] - origins.x[newaxis, ...], an outer difference only on this domain (0-d origins with
+   points (2,) give shape (2, 1); origins (2, 1) with points (2,) are broadcast to (1, 2, 1); 0-d points
+   with origins (1,) give (1, 1)).  The model now answers NotModelled outside the domain, the statement
+   gained the hypothesis pairwise_modelled P O = true and speaks about the `inr` result. *)
 Theorem pairwise_any_shape : forall (T : Type) (N : Num T) (c : cstate) (P O : points T) ip io p o,
+  pairwise_modelled P O = true ->
   nd_wf O -> nd_get P ip = Some p -> nd_get O io = Some o ->
   let q := cs_convert_from_gcs N (c_origin c) (c_i c) (c_j c) p in
-  let '(X, Y, Z) := c_convert_from_gcs_pairwise N c P O in
+  exists X Y Z, c_convert_from_gcs_pairwise N c P O = inr (X, Y, Z) /\
   nd_shape X = (nd_shape P ++ nd_shape O)%list /\ nd_shape Y = (nd_shape P ++ nd_shape O)%list /\
   nd_shape Z = (nd_shape P ++ nd_shape O)%list /\
   nd_get X (ip ++ io) = Some (nsub N (vx q) (vx o)) /\
@@ -719,16 +746,27 @@ Theorem pairwise_any_shape : forall (T : Type) (N : Num T) (c : cstate) (P O : p
   nd_get Z (ip ++ io) = Some (nsub N (vz q) (vz o)).
 Proof. exact @pairwise_get. Qed.
 
+(* the domain is: origins 1-d, points with at least one dimension; outside it the model answers the
+   marker NotModelled (which is no exception: the library returns broadcast arrays there) *)
+Theorem pairwise_domain : forall (T : Type) (N : Num T) (c : cstate) (P O : points T),
+  (pairwise_modelled P O = true <-> length (nd_shape O) = 1%nat /\ length (nd_shape P) <> 0%nat) /\
+  (pairwise_modelled P O = false -> c_convert_from_gcs_pairwise N c P O = inl NotModelled).
+Proof. intros T N c P O. split; [apply pairwise_modelled_spec | apply pairwise_outside]. Qed.
+
 (* ... and what the triple means for an orthonormal frame: the coordinates of the point in the frame
    with the same axes whose origin is the GCS position of origins[io]; its norm is the distance
-   between the point and that origin *)
-Theorem pairwise_is_frame_at_origin : forall (c : cstate) (p o : vec3 R), frame_exact c ->
-  let q := cs_convert_from_gcs NumR (c_origin c) (c_i c) (c_j c) p in
-  (vx q - vx o, vy q - vy o, vz q - vz o)
-  = cs_convert_from_gcs NumR (cs_convert_to_gcs NumR (c_origin c) (c_i c) (c_j c) o) (c_i c) (c_j c) p
-  /\ sqrt ((vx q - vx o) * (vx q - vx o) + (vy q - vy o) * (vy q - vy o) + (vz q - vz o) * (vz q - vz o))
-     = vdist NumR p (cs_convert_to_gcs NumR (c_origin c) (c_i c) (c_j c) o).
-Proof. exact pairwise_meaning_R. Qed.
+   between the point and that origin.
+   REPAIR: the old statement was about the triple (vx q - vx o, ...) alone and did not mention the
+   function; it is now stated ON the result of c_convert_from_gcs_pairwise, with the same domain
+   hypothesis as above (the old equation is the conjunction of the last two lines with the entries of
+   pairwise_any_shape) *)
+Theorem pairwise_is_frame_at_origin : forall (c : cstate) (P O : points R) ip io (p o : vec3 R), frame_exact c ->
+  pairwise_modelled P O = true -> nd_wf O -> nd_get P ip = Some p -> nd_get O io = Some o ->
+  exists X Y Z x y z, c_convert_from_gcs_pairwise NumR c P O = inr (X, Y, Z) /\
+    nd_get X (ip ++ io) = Some x /\ nd_get Y (ip ++ io) = Some y /\ nd_get Z (ip ++ io) = Some z /\
+    (x, y, z) = cs_convert_from_gcs NumR (cs_convert_to_gcs NumR (c_origin c) (c_i c) (c_j c) o) (c_i c) (c_j c) p /\
+    sqrt (x * x + y * y + z * z) = vdist NumR p (cs_convert_to_gcs NumR (c_origin c) (c_i c) (c_j c) o).
+Proof. exact pairwise_meaning_fun_R. Qed.
 
 (* ---- distance_pairwise on Points objects ---------------------------------------------------------------------- *)
 (* the PUBLIC function on two 1-d Points objects, composed with the blockwise theorem of C13: for every
@@ -869,11 +907,14 @@ Example glue_runs_on_rationals :
                     option_map (@nd_data bool) (match rectbox_grid NumQ g (Some (1 # 2)%Q) None None (Some 1%Q) None None with
                                                 | inr m => Some m | inl _ => None end),
                     match grid_resample NumQ g (PxScalar (1 # 2)%Q) with
-                    | inr r => Some (nd_shape (go_points r), go_yvect r) | inl _ => None end)
+                    | inr r => Some (nd_shape (go_points r), go_yvect r) | inl _ => None end,
+                    (* resample with a zero pixel size: OverflowError on a non-degenerate axis, accepted on the degenerate one *)
+                    match grid_resample NumQ g (PxScalar 0%Q) with inl e => Some e | inr _ => None end,
+                    match grid_resample NumQ g (PxSeq [1; 1; 0]%Q) with inl e => Some e | inr _ => None end)
    | inl _ => None end)
   = Some ([3; 3; 1]%nat, [0; 1 # 2; 1]%Q, [0; 1; 2]%Q, [5%Q], [], Some (1, 1, 5)%Q,
           Some [false; false; false; true; true; false; true; true; false],
-          Some ([3; 5; 1]%nat, [0; 1 # 2; 1; 3 # 2; 2]%Q)) /\
+          Some ([3; 5; 1]%nat, [0; 1 # 2; 1; 3 # 2; 2]%Q), Some OverflowError, None) /\
   (match grid_init NumQ 1 0 0 0 3 2 (PxScalar (1 # 2)%Q) with
    | inr g => Some (nd_shape (go_points g), go_xvect g, go_zvect g, go_warnings g) | inl _ => None end)
   = Some ([3; 1; 3]%nat, [1; 1 # 2; 0]%Q, [3; 5 # 2; 2]%Q, [AxX; AxZ]) /\
@@ -905,9 +946,15 @@ Example glue_runs_on_rationals :
      inr (mkCst (2, 3, 4)%Q (0, 1, 0)%Q (0, 0, 1)%Q), inr cs1,
      inr (mkCst (2, 2, 2)%Q (0, 1, 0)%Q (0, 0, 1)%Q), inr (mkCst (3, 3, 3)%Q (0, 1, 0)%Q (0, 0, 1)%Q), inl ValueError, true) /\
   (* convert_from_gcs_pairwise: points of shape (2, 1) against origins of shape (3,) *)
-  (let '(X, Y, Z) := c_convert_from_gcs_pairwise NumQ cs1 (mkNd [2; 1]%nat [(1, 2, 3); (4, 5, 6)]%Q)
-                       (mkNd [3%nat] [(1, 0, 0); (0, 1, 0); (0, 0, 1)]%Q) in (nd_shape X, nd_data X, nd_data Y, nd_data Z))
-  = ([2; 1; 3]%nat, [0; 1; 1; 3; 4; 4]%Q, [2; 1; 2; 5; 4; 5]%Q, [0; 0; -1; 3; 3; 2]%Q) /\
+  (match c_convert_from_gcs_pairwise NumQ cs1 (mkNd [2; 1]%nat [(1, 2, 3); (4, 5, 6)]%Q)
+                       (mkNd [3%nat] [(1, 0, 0); (0, 1, 0); (0, 0, 1)]%Q) with
+   | inr (X, Y, Z) => inr (nd_shape X, nd_data X, nd_data Y, nd_data Z) | inl e => inl e end)
+  = inr ([2; 1; 3]%nat, [0; 1; 1; 3; 4; 4]%Q, [2; 1; 2; 5; 4; 5]%Q, [0; 0; -1; 3; 3; 2]%Q) /\
+  (* ... outside the modelled domain (0-d origins; 2-d origins; 0-d points): the marker *)
+  (c_convert_from_gcs_pairwise NumQ cs1 (mkNd [2%nat] [(1, 2, 3); (4, 5, 6)]%Q) (mkNd [] [(1, 0, 0)]%Q),
+   c_convert_from_gcs_pairwise NumQ cs1 (mkNd [2%nat] [(1, 2, 3); (4, 5, 6)]%Q) (mkNd [2; 1]%nat [(1, 0, 0); (0, 1, 0)]%Q),
+   c_convert_from_gcs_pairwise NumQ cs1 (mkNd [] [(1, 2, 3)]%Q) (mkNd [1%nat] [(1, 0, 0)]%Q))
+  = (inl NotModelled, inl NotModelled, inl NotModelled) /\
   (* allclose: (1,) against (2,) broadcasts, (2,) against (3,) raises, 1-d against 2-d is False *)
   (let p1 : points Q := mkNd [1%nat] [(1, 2, 3)] in
    let p2 : points Q := mkNd [2%nat] [(1, 2, 3); (1, 2, 3)] in
